@@ -429,6 +429,12 @@ def run_algebra(case, out):
         return
     rf = r.astype(float)
     out.check(bool(np.all(np.isfinite(rf))) and rf.min() >= 0 and rf.max() <= 1, f"{op}:result_outside_0_1", lambda: f"{rf.min()} {rf.max()}")
+    # what a call returned stays what it was: later calls on other masks of the same box must not reach back into it
+    r_keep = r.copy()
+    others = [make_mask(dict(m_, seed=m_["seed"] + 101), shape) for m_ in case["masks"][:2]] + [np.ones(shape)]
+    for op2 in ("union", "intersection", "difference", op):
+        call(out, f"{op2}(other masks)", lambda: getattr(cryomask, op2)([o_.copy() for o_ in others]))
+    out.check(np.array_equal(np.asarray(r), r_keep), f"{op}:earlier_result_changed_by_later_calls", "")
     if sum(shape) % 3 == 0:
         out.label("algebra:output_file")
         ok3, r3 = call(out, f"{op}(output_name)", lambda: fn(list(inputs), output_name="res.mrc"))
